@@ -38,7 +38,8 @@ func TestC17CompressionAsConfigured(t *testing.T) {
 	hx.Check(t, hx.Scale(200, 4000), func(t *rapid.T) {
 		n++
 		// value per source: "-" = the source does not set the option
-		vals := []string{"-", "", "^text/.*$", "^image/.*$"}
+		// (the last one has a blank: it matches "text/plain; charset=utf-8" only as a whole)
+		vals := []string{"-", "", "^text/.*$", "^image/.*$", "^text/plain; charset=utf-8$", "^text/html; charset=utf-8$"}
 		cmd := rapid.SampledFrom(vals).Draw(t, "cmdline")
 		envF := rapid.SampledFrom(vals).Draw(t, "FABIO_env")
 		envP := rapid.SampledFrom(vals).Draw(t, "plain_env")
@@ -87,7 +88,7 @@ func TestC17CompressionAsConfigured(t *testing.T) {
 		res := rec.Result()
 		got, _ := io.ReadAll(res.Body)
 		compressed := res.Header.Get("Content-Encoding") == "gzip"
-		want := effective == "^text/.*$"
+		want := effective == "^text/.*$" || effective == "^text/plain; charset=utf-8$"
 		desc := fmt.Sprintf("proxy.gzip.contenttype: file=%q plain env=%q FABIO_ env=%q command line=%q (\"-\" = not set) -> effective %q", file, envP, envF, cmd, effective)
 		if compressed != want {
 			t.Fatalf("a text/plain response was compressed=%v, configured: %v\n%s", compressed, want, desc)
